@@ -17,6 +17,7 @@ import (
 	"strconv"
 	"strings"
 	"sync"
+	"syscall"
 	"time"
 )
 
@@ -240,6 +241,12 @@ func WorkerMain(args []string) int {
 			return 2
 		}
 	}
+	abortWorker = func() {
+		if b, err := json.Marshal(res); err == nil {
+			_ = os.WriteFile(args[5], b, 0o644)
+		}
+		os.Exit(0)
+	}
 	run(env, res)
 	b, err := json.Marshal(res)
 	if err != nil {
@@ -251,6 +258,55 @@ func WorkerMain(args []string) int {
 		return 2
 	}
 	return 0
+}
+
+var abortWorker func()
+
+// AbortWorker ends the child process after writing what it has observed so far. It is for the one
+// situation a worker cannot continue from: code under test that does not return (see Bounded).
+func AbortWorker(res *Result, remaining int) {
+	res.Count("cases_not_run_after_a_call_that_never_returned", remaining)
+	if abortWorker != nil {
+		abortWorker()
+	}
+	os.Exit(3)
+}
+
+func cpuTime() time.Duration {
+	var ru syscall.Rusage
+	if err := syscall.Getrusage(syscall.RUSAGE_SELF, &ru); err != nil {
+		return 0
+	}
+	return time.Duration(ru.Utime.Nano() + ru.Stime.Nano())
+}
+
+// Bounded runs f on its own goroutine and reports whether it returned. The bound is CPU time burnt by
+// this (single-case-at-a-time) process, not wall-clock time, so that a loaded machine cannot turn a slow
+// call into a verdict: a call that normally takes microseconds and has consumed `budget` of CPU is
+// spinning. A call that blocks without spinning is left to the wall-clock watchdog (inconclusive).
+// A panic in f is re-raised on the caller's goroutine.
+func Bounded(budget time.Duration, f func()) bool {
+	done := make(chan interface{}, 1)
+	start := cpuTime()
+	go func() {
+		defer func() { done <- recover() }()
+		f()
+	}()
+	tick := time.NewTicker(100 * time.Millisecond)
+	defer tick.Stop()
+	for {
+		select {
+		case p := <-done:
+			if p != nil {
+				panic(p)
+			}
+			return true
+		case <-tick.C:
+			if cpuTime()-start > budget {
+				return false
+			}
+		}
+	}
 }
 
 // ---------------------------------------------------------------------------
